@@ -307,6 +307,16 @@ func genC15(t *rapid.T) C15Case {
 		c.Now = rapid.Int64Range(1<<31, 1<<32-100000).Draw(t, "nowHigh")
 	}
 	valid := genValidBytesAt(t, c.Target, c.Now)
+	if c.Target == "file" && rapid.IntRange(0, 14).Draw(t, "hugeStep") == 0 {
+		// one archive, huge step x tiny count: retention around 2^31 .. 2^32; base interval aligned
+		step := int64(1) << uint(rapid.IntRange(26, 31).Draw(t, "stepLog"))
+		pts := rapid.Int64Range(1, 9).Draw(t, "pts")
+		b := make([]byte, 28+12*pts)
+		copy(b, EncodeWspHeader(uint32(rapid.IntRange(1, 6).Draw(t, "method")), uint32(step*pts), 0.5, []WspArchive{{Offset: 28, Step: uint32(step), Points: uint32(pts)}}))
+		binary.BigEndian.PutUint32(b[28:], uint32(alignDown(c.Now, step)))
+		c.Data, c.Origin = b, "huge-step-single-archive"
+		return c
+	}
 	if (c.Target == "file" || c.Target == "header") && rapid.IntRange(0, 9).Draw(t, "bigCount") == 0 {
 		c.Data, c.Origin = genBigCountFile(t), "big-archive-count"
 		return c
